@@ -121,6 +121,12 @@ Definition set_threshold (p : part) (thr : Z) : part :=
 Definition new_part (thr : Z) (ns : list note) (cs : list ctrl) : part :=
   set_threshold (mkPart ns cs thr (map n_off ns)) thr.
 
+(* PerformedPart(notes, controls, threshold) from note dicts that already carry a sound_off
+   (copied from another part, or arbitrary values >= note_off): the carried values [so0] are
+   stored first, then the constructor assigns the threshold *)
+Definition new_part_carrying (thr : Z) (ns : list note) (so0 : list Q) (cs : list ctrl) : part :=
+  set_threshold (mkPart ns cs thr so0) thr.
+
 (* ---- note_array rows and from_note_array *)
 Record narow := mkRow { r_pitch : Z; r_vel : Z; r_on : Q; r_dur : Q; r_on_tick : Z; r_dur_tick : Z }.
 (* one row: onset, duration up to the sounding end, onset tick, tick(note_off) - tick(note_on) *)
@@ -134,6 +140,31 @@ Definition note_array (ppq mpq : Z) (p : part) : list narow :=
 Definition note_of_row (r : narow) : note := mkNote (r_pitch r) (r_vel r) (r_on r) (r_on r + r_dur r).
 Definition from_note_array (rows : list narow) : part :=
   new_part 64 (map note_of_row rows) [].
+
+(* ---- operation histories over a performed part.  Every step ends with what makes the
+   implementation recompute (an assignment of the threshold, or a constructor); between the edit
+   and the assignment the part holds the sound_off values of its past ([p_so], stale). *)
+Inductive step :=
+| SetThr (t : Z)                         (* pp.sustain_pedal_threshold = t *)
+| SetCtrls (cs : list ctrl) (t : Z)      (* pp.controls replaced / extended / pruned to cs, then threshold = t *)
+| SetNotes (ns : list note) (t : Z)      (* note_on / note_off of notes edited, notes added / deleted, then threshold = t *)
+| Rebuild (cs : list ctrl) (t : Z)       (* PerformedPart(notes of this part, carrying their sound_off; controls cs; threshold t) *)
+| RoundTrip (ppq mpq : Z).               (* PerformedPart.from_note_array(pp.note_array()) *)
+
+(* the stale column next to an edited note list (kept notes keep their value, a new note has
+   its release; the values are irrelevant, only the shape is kept well-formed) *)
+Definition stale (ns : list note) (so : list Q) : list Q :=
+  if Nat.eqb (List.length so) (List.length ns) then so else map n_off ns.
+
+Definition apply_step (p : part) (s : step) : part :=
+  match s with
+  | SetThr t => set_threshold p t
+  | SetCtrls cs t => set_threshold (mkPart (p_notes p) cs (p_thr p) (p_so p)) t
+  | SetNotes ns t => set_threshold (mkPart ns (p_ctrls p) (p_thr p) (stale ns (p_so p))) t
+  | Rebuild cs t => new_part_carrying t (p_notes p) (p_so p) cs
+  | RoundTrip ppq mpq => from_note_array (note_array ppq mpq p)
+  end.
+Definition run_history (p : part) (ss : list step) : part := fold_left apply_step ss p.
 
 (* ---- Performance.sanitize_track_numbers: (part index, track) pairs -> new track numbers.
    The code enumerates list(set(pairs)) (arbitrary order); the model numbers the distinct
@@ -184,6 +215,21 @@ Definition check_history (c : Z * list note * list ctrl * list Z * option (list 
   | Some _ => list_eqb qlist_eqb (history (new_part thr ns cs) thrs) obs
   | None => true
   end.
+
+(* construction from notes carrying sound_off values, followed by a history of steps; observed
+   after construction and after every step: the (note_off column, sound_off column) of the part *)
+Fixpoint trace (p : part) (ss : list step) : list (list Q * list Q) :=
+  match ss with
+  | [] => []
+  | s :: r => let p' := apply_step p s in (map n_off (p_notes p'), p_so p') :: trace p' r
+  end.
+Definition colpair_eqb (a b : list Q * list Q) : bool := qlist_eqb (fst a) (fst b) && qlist_eqb (snd a) (snd b).
+Definition check_steps (c : Z * list note * list Q * list ctrl * list step * list (list Q * list Q)) : bool :=
+  let '(thr, ns, so0, cs, ss, obs) := c in
+  let p := new_part_carrying thr ns so0 cs in
+  forallb valid_note ns &&
+  forallb (fun x => Qle_bool (n_off (fst x)) (snd x)) (combine ns so0) &&
+  list_eqb colpair_eqb ((map n_off (p_notes p), p_so p) :: trace p ss) obs.
 
 (* note_array: exact columns pitch, velocity, onset tick; duration tick only for notes that no
    pedal extends; the seconds columns are float32 in the implementation and compared in Python *)
